@@ -517,6 +517,11 @@ var fixedRenames = []fixedRename{
 	{"@(foo.2) and @foo.2", "foo", "zz8.1"},
 	{"@foo.0.name @(foo.10 + foo .3)", "foo", "zz8.1"},
 	{"@(foreach(array(1, 2), (zz8) => foo & zz8))", "foo", "zz8.json"},
+	// parameters that differ only by case stay two parameters (second hunt, finding C11/2)
+	{"@(((Bar, bar) => foo & bar)(\"1\", \"2\"))", "foo", "bar"},
+	{"@(((bar, Bar) => foo & Bar & bar)(\"1\", \"2\"))", "foo", "bar"},
+	{"@(foreach(array(\"a\", \"b\"), (x) => ((ZZ8, zz8) => x & foo & zz8)(\"1\", \"2\")))", "foo", "zz8.json"},
+	{"@(((\u212a, k, K) => foo & k)(\"1\", \"2\", \"3\"))", "foo", "k"},
 }
 
 // the names the rename oracle renames
@@ -561,7 +566,7 @@ func genTargetCapture(r *hx.Rand) string {
 	if r.Intn(4) == 0 {
 		p = strings.ToUpper(p[:1]) + p[1:]
 	}
-	switch r.Intn(6) {
+	switch r.Intn(7) {
 	case 0:
 		return "foreach(array(1, 2), (" + p + ") => " + v + " & " + p + ")"
 	case 1:
@@ -575,6 +580,16 @@ func genTargetCapture(r *hx.Rand) string {
 	case 4:
 		// the parameter shadows the name itself: nothing to rename inside
 		return "foreach(array(1, 2), (" + v + ", " + p + ") => " + v + " & " + p + ") & " + v
+	case 5:
+		// two parameters that differ only by case, called directly with different arguments
+		q := strings.ToUpper(p[:1]) + p[1:]
+		if q == p {
+			q = strings.ToLower(p)
+		}
+		if r.Intn(2) == 0 {
+			p, q = q, p
+		}
+		return "((" + p + ", " + q + ") => " + v + " & " + hx.Pick(r, []string{p, q}) + ")(\"1\", \"2\")"
 	default:
 		return "filter(array(1, 2, 3), (" + p + "_, " + p + ") => " + v + " = " + p + " + " + p + "_)"
 	}
@@ -582,15 +597,22 @@ func genTargetCapture(r *hx.Rand) string {
 
 // the binding-aware view of the references of an expression, in source order: a reference that an enclosing
 // anonymous function binds (innermost first; names are the same when their lower case is the same, as in evaluation)
-// is written #depth.index, a free one is written as what free() makes of its lower-cased name
+// is written #depth.index (index = the parameter evaluation resolves it to), a free one is written as what free()
+// makes of its lower-cased name
 func refShape(e excellent.Expression, env [][]string, free func(string) []string) []string {
 	if ref, ok := e.(*excellent.ContextReference); ok {
 		name := strings.ToLower(ref.Name)
 		for d := len(env) - 1; d >= 0; d-- {
-			for i := len(env[d]) - 1; i >= 0; i-- {
-				if strings.ToLower(env[d][i]) == name {
-					return []string{fmt.Sprintf("#%d.%d", len(env)-1-d, i)}
+			// the parameters are the properties of the function's scope: a later parameter of the same spelling replaces
+			// an earlier one, and of several spellings that match the first in A-Z order is taken (XObject.Get)
+			best := -1
+			for i, a := range env[d] {
+				if strings.ToLower(a) == name && (best < 0 || a <= env[d][best]) {
+					best = i
 				}
+			}
+			if best >= 0 {
+				return []string{fmt.Sprintf("#%d.%d", len(env)-1-d, best)}
 			}
 		}
 		return free(name)
@@ -1265,7 +1287,7 @@ func main() {
 			}
 			lfrom := strings.ToLower(from)
 			// which names the rename takes for `from` must be decided like evaluation decides it (lower case)
-			foldDiffers, sawBound, toIsParam := false, false, false
+			foldDiffers, sawBound, toIsParam, variantParams := false, false, false, false
 			for _, p := range exprs {
 				p.Visit(func(e excellent.Expression) {
 					switch n := e.(type) {
@@ -1283,6 +1305,11 @@ func main() {
 							}
 							if slices.Contains(toRefs, strings.ToLower(a)) {
 								toIsParam = true
+								for _, b := range n.Args {
+									if b != a && strings.ToLower(b) == strings.ToLower(a) {
+										variantParams = true
+									}
+								}
 							}
 						}
 					}
@@ -1294,6 +1321,8 @@ func main() {
 					return pathClass
 				case foldDiffers:
 					return "rename:name-matched-by-case-folding-not-lower-case"
+				case variantParams:
+					return "rename:alpha-renaming-merges-case-variant-parameters"
 				case toIsParam:
 					return "rename:renamed-reference-captured-by-lambda-parameter"
 				case sawBound:
